@@ -165,7 +165,8 @@ def purity_workload(ctx, tmp):
     for idx, (label, text) in enumerate(docs):
         try:
             d = eng.loads(text, include_comments=(idx % 5 == 0), include_position=(idx % 7 == 0))
-        except Exception:
+        except Exception as ex:
+            res.count(f"purity_doc_not_accepted({label}):" + type(ex).__name__)
             continue
         if idx % 3 == 0 and isinstance(d, dict):
             d, _, _ = edits.gen_history(r, d, r.randint(1, 8), gated=ctx.gated, allow_missing_reads=False)
